@@ -428,6 +428,9 @@ func TestVerifC10ScramblesuitPackets(t *testing.T) {
 	rapid.Check(t, func(rt *rapid.T) {
 		p := vf10GenPk(rt)
 		msg, r := vf10RunPk(p)
+		if vf10Unstoppable(msg) {
+			vf10Abort("TestVerifC10ScramblesuitPackets", msg+"\n"+p.describe(r))
+		}
 		if msg != "" {
 			rt.Fatalf("%s\n%s", msg, p.describe(r))
 		}
@@ -523,6 +526,9 @@ func FuzzVerifC10ScramblesuitPackets(f *testing.F) {
 		}
 		p := vf10DecodePk(prog, plan, flags)
 		msg, r := vf10RunPk(p)
+		if vf10Unstoppable(msg) {
+			vf10Abort("FuzzVerifC10ScramblesuitPackets", msg+"\n"+p.describe(r)+fmt.Sprintf("\n  fuzz input: prog=%x plan=%x flags=%#x", prog, plan, flags))
+		}
 		if msg != "" {
 			t.Fatalf("%s\n%s", msg, p.describe(r))
 		}
